@@ -603,6 +603,12 @@ class ModelsMixin:
             rv = self.ctx.vals.get(nk(r))
             if lv is None or rv is None:
                 return st
+            if isinstance(op, (ast.In, ast.NotIn, ast.Is, ast.IsNot)) and not isinstance(l, ast.Name):
+                # the left operand is not a name that could be narrowed (`number_type(m) in (int, Fraction)`): a test whose
+                # outcome is known makes the other branch infeasible all the same
+                tv = self.truth(c, st)
+                if tv == {True} and not pol or tv == {False} and pol:
+                    return None
             if lv.const is not None and any(isinstance(c_, tuple) for c_ in lv.const):
                 # symbolic constant (a parameter's own value): nothing is known about the value
                 if isinstance(op, ast.Eq) and pol and isinstance(l, ast.Name) and l.id in st.env and rv.const is not None and len(rv.const) == 1 and not any(isinstance(c_, tuple) for c_ in rv.const):
